@@ -70,18 +70,15 @@ ParseI64(s) ==
         d == Digits(s, i1, Z4, FALSE, 0)
     IN IF d.n = 0 THEN [ok |-> FALSE, r |-> R(MkInt(FALSE, Z4), "EINVAL")]
        ELSE [ok |-> TRUE, r |-> ClampTo(neg, d.over, d.m, I64MinM, I64MaxM)]
-\* json_parse_uint64: leading spaces only (' '), a '-' is refused; strtoull then accepts white space / '+'
+\* json_parse_uint64: leading white space, then a '-' is refused (a uint cannot be negative: never a wrapped value);
+\* otherwise an optional '+' and digits, saturating at UINT64_MAX.  (As found, only ' ' was skipped before the '-' test
+\* and strtoull negated "\t-1" into 2^64-1: defect D10d, fixed.)
 ParseU64(s) ==
-    LET RECURSIVE Sp(_)
-        Sp(i) == IF i <= Len(s) /\ s[i] = 32 THEN Sp(i + 1) ELSE i
-        i0 == Sp(1)
-    IN IF i0 <= Len(s) /\ s[i0] = 45 THEN [ok |-> FALSE, r |-> R(MkInt(FALSE, Z4), "ANY")]
-       ELSE LET j0 == SkipWs(s, i0)
-                neg == j0 <= Len(s) /\ s[j0] = 45          \* strtoull negates: outside the documented behaviour
-                j1 == IF j0 <= Len(s) /\ s[j0] \in {43, 45} THEN j0 + 1 ELSE j0
+    LET j0 == SkipWs(s, 1)
+    IN IF j0 <= Len(s) /\ s[j0] = 45 THEN [ok |-> FALSE, r |-> R(MkInt(FALSE, Z4), "ANY")]
+       ELSE LET j1 == IF j0 <= Len(s) /\ s[j0] = 43 THEN j0 + 1 ELSE j0
                 d == Digits(s, j1, Z4, FALSE, 0)
             IN IF d.n = 0 THEN [ok |-> FALSE, r |-> R(MkInt(FALSE, Z4), "EINVAL")]
-               ELSE IF neg THEN [ok |-> TRUE, r |-> R(MkInt(FALSE, Z4), "ANY")]
                ELSE [ok |-> TRUE, r |-> ClampTo(FALSE, d.over, d.m, Z4, U64MaxM)]
 
 \* ---- accessors.  Result record R(v, errno); v is an Int record (or BOOLEAN / bits for the others)
